@@ -61,6 +61,27 @@ def exp_log_axioms(terms):
     return ax
 
 
+def div_domain(terms):
+    """domain of the expressions as written: every non-constant denominator occurring in `terms` is non-zero"""
+    seen, out = set(), []
+
+    def walk(t):
+        if t.get_id() in seen:
+            return
+        seen.add(t.get_id())
+        if z3.is_app(t):
+            if z3.is_div(t):
+                d = t.arg(1)
+                if not (z3.is_rational_value(d) or z3.is_int_value(d)):
+                    out.append(d != 0)
+            for ch in t.children():
+                walk(ch)
+    for t in terms:
+        if t is not None:
+            walk(t)
+    return out
+
+
 def same_cell(a, b):
     """both NaN, or identical object, or equal concrete numbers; None if a solver question"""
     an = a is None or (isinstance(a, (float, np.floating)) and math.isnan(a))
